@@ -19,18 +19,18 @@ import (
 )
 
 type clStep struct {
-	Op   string `json:"op"`
-	Node int    `json:"node"`
-	To   int    `json:"to"`
+	Op   string          `json:"op"`
+	Node int             `json:"node"`
+	To   int             `json:"to"`
 	From json.RawMessage `json:"from"`
-	What string `json:"what"`
-	Type string `json:"type"`
-	R    int32  `json:"r"`
-	Val  string `json:"val"`
-	Pol  int32  `json:"pol"`
-	Bind string `json:"bind"`
-	Mode string `json:"mode"`
-	Soft bool   `json:"soft"`
+	What string          `json:"what"`
+	Type string          `json:"type"`
+	R    int32           `json:"r"`
+	Val  string          `json:"val"`
+	Pol  int32           `json:"pol"`
+	Bind string          `json:"bind"`
+	Mode string          `json:"mode"`
+	Soft bool            `json:"soft"`
 }
 
 type clSchedule struct {
